@@ -600,7 +600,7 @@ def whist_trace(H, case, target):
     groups, cur = [("create", [])], None
     fdn = None
     for l in open(log, errors="replace"):
-        m = re.search(r'pwrite64\((\d+), "((?:\\x[0-9a-f]{2})*)"(?:\.\.\.)?, (\d+), (\d+)\)\s+= (\d+)', l)
+        m = re.search(r'pwrite64\((\d+), "((?:\\x[0-9a-f]{2})*)"(?:\.\.\.)?, (\d+), (\d+)(?:\)| <unfinished)', l)
         if m:
             fdn = m.group(1)
             sig = bytes.fromhex(m.group(2).replace("\\x", ""))[:4]
@@ -612,15 +612,15 @@ def whist_trace(H, case, target):
             if t.startswith("MARK"):
                 groups.append((t[5:], []))
             continue
-        m = re.search(r'fsync\((\d+)\)', l)
+        m = re.search(r'fsync\((\d+)', l)
         if m and (fdn is None or m.group(1) == fdn):
             groups[-1][1].append((1, 0, 0, b""))
             continue
-        m = re.search(r'ftruncate\((\d+), (\d+)\)', l)
+        m = re.search(r'ftruncate\((\d+), (\d+)', l)
         if m and (fdn is None or m.group(1) == fdn):
             groups[-1][1].append((2, int(m.group(2)), 0, b""))
             continue
-        m = re.search(r'close\((\d+)\)', l)
+        m = re.search(r'close\((\d+)', l)
         if m and fdn is not None and m.group(1) == fdn:
             groups[-1][1].append((3, 0, 0, b""))
     if os.path.exists(target):
@@ -741,6 +741,10 @@ def parser_tie(ctx, lib, viol, cov, repaired=True, workdir=None, crafted=()):
     H = ctx.harness
     rng = ctx.rng
     small = [(t, p, c) for t, p, c in lib if os.path.getsize(p) <= 6000][: (5 if ctx.tier == "quick" else 12)]
+    td = os.path.join(vlib.REPO, "testdata")
+    for n in (TIE_REF if ctx.tier == "quick" else TIE_REF + TIE_REF_MORE):
+        if os.path.exists(os.path.join(td, n)):
+            small.append(("ref:" + n, os.path.join(td, n), None))
     vparts = ["From HV Require Import Base.Prelude Base.Outcome Base.Bytes Model.IOProg Model.IOProgReader Model.IOProgOpen Model.IOProgTie.\n"]
     labels, total = [], 0
     stats = collections.Counter()
@@ -774,7 +778,7 @@ def parser_tie(ctx, lib, viol, cov, repaired=True, workdir=None, crafted=()):
                 stats["%s:%s" % (op, ("ok", "err", "panic")[r["class"]])] += 1
                 if r["class"] == 2 or (r["class"] == 0 and (intact["class"] != 0 or r.get("v") != intact.get("v"))):
                     viol.append(dict(what="%s: parser %s@%d cut=%d fault=%d/kind%d returns %s" % (tag, op, addr, cut, k, code, ("a different value", "", "a panic")[r["class"]]),
-                                     failing_input=dict(kind="parser", file=path, origin=dict(history=_), op=op, addr=addr, cut=cut, fault=k, fault_code=code),
+                                     failing_input=dict(kind="parser", file=path, origin=(dict(history=_) if _ else dict(reference=os.path.relpath(path, vlib.REPO))), op=op, addr=addr, cut=cut, fault=k, fault_code=code),
                                      intact=intact, observed=r))
             name = "cs_%d_%d" % (fi, ti)
             vparts.append("Definition v_%s : val := %s.\n" % (name, coq_val(intact.get("v")) if intact["class"] == 0 else "VL []"))
@@ -785,7 +789,7 @@ def parser_tie(ctx, lib, viol, cov, repaired=True, workdir=None, crafted=()):
             labels.append(("bad_" + name, tag, op, addr, res, path))
             total += len(res)
     # hdf5.Open as a whole (Model/IOProgOpen.v p_open) on truncated copies: class and tree
-    opens = [(t, p) for t, p, _ in small[:3]] + [(t, p) for t, p, _ in crafted]
+    opens = [(t, p) for t, p, _ in small[:3]] + [(t, p) for t, p, _ in small if t.startswith("ref:")] + [(t, p) for t, p, _ in crafted]
     for oi, (tag, path) in enumerate(opens):
         img = open(path, "rb").read()
         size = len(img)
@@ -831,6 +835,9 @@ def parser_tie(ctx, lib, viol, cov, repaired=True, workdir=None, crafted=()):
     return total
 
 
+TIE_REF = ["v0.h5", "vlen_strings.h5"]
+TIE_REF_MORE = ["with_attributes.h5", "compound_test.h5", "test_3d_chunked.h5", "string_test.h5", "mathcad_document.h5", "with_groups.h5",
+                "test_attr_int32.h5", "reference_traverse.h5"]
 OPCODES = {"superblock": 0, "ohdr": 1, "attrs": 2, "lheap": 3, "snod": 4, "gbtree": 5, "gheap": 6, "read": 7}
 
 
@@ -839,7 +846,8 @@ def op_code(op):
 
 
 def parser_targets(H, path):
-    """(op, addr, args) for the file: superblock, every object header, symbol-table structures, dataset raw reads"""
+    """(op, addr, args) for the file: superblock, every object header, symbol-table structures, dataset reads,
+    and every symbol table node / global heap collection found by its signature"""
     t = [("superblock", 0, [])]
     try:
         p = subprocess.run([H, "c17targets", path], capture_output=True, text=True, timeout=60)
@@ -848,6 +856,10 @@ def parser_targets(H, path):
                 t.append((x["op"], x["addr"], x.get("args") or []))
     except Exception:
         pass
+    data = open(path, "rb").read()
+    for sig, op in ((b"SNOD", "snod"), (b"GCOL", "gheap")):
+        for m in list(re.finditer(re.escape(sig), data))[:6]:
+            t.append((op, m.start(), []))
     return t
 
 
